@@ -40,7 +40,7 @@ ASSUMPTIONS = [
     "foreign files: seconds are compared with the exact rational value within 1e-9 relative",
 ]
 COMPONENTS = {"real": ["partitura.io.exportmidi.save_performance_midi", "partitura.io.importmidi.load_performance_midi/adjust_time", "partitura.io.load_performance", "partitura.performance", "mido"], "stub": ["raw file layer (SimFS)", "independent SMF codec (model/ref_smf.py) as peer reader and writer"]}
-PROBES = ("midifile_object_reused", "second_generation", "list_input", "raw_list_input", "ppart_input", "merge_tracks_save", "merge_tracks_load", "tick_half_boundary", "tempo_in_later_track", "multiple_tempo_segments", "two_tempos_on_one_tick", "zero_velocity_note_on_as_off", "fault_in_flight", "load_performance_chain", "reader_on_torn_file")
+PROBES = ("bank_select_with_program", "midifile_object_reused", "second_generation", "list_input", "raw_list_input", "ppart_input", "merge_tracks_save", "merge_tracks_load", "tick_half_boundary", "tempo_in_later_track", "multiple_tempo_segments", "two_tempos_on_one_tick", "zero_velocity_note_on_as_off", "fault_in_flight", "load_performance_chain", "reader_on_torn_file")
 
 
 # ----------------------------------------------------------------------------
@@ -84,6 +84,12 @@ def gen_perf(w, k):
             notes[0]["note_off"] = src["note_on"] + d0
         controls = [{"type": "c", "number": w.choice((64, 67, 1, 7)), "value": w.randrange(0, 128), "time": round(w.uniform(0, 9), 6), "track": w.choice(tracks), "channel": w.choice((0, 1))} for _ in range(k.choice((0, 0, 2, 5)))]
         programs = [{"program": w.randrange(0, 128), "time": round(w.uniform(0, 2), 6), "track": w.choice(tracks), "channel": w.choice((0, 1))} for _ in range(k.choice((0, 0, 1, 2)))]
+        if programs and w.random() < 0.4:
+            # instrument selection as General MIDI 2 / GS / XG devices expect it: bank select (controllers 0 and 32) at
+            # the moment of the program change, on its channel and track
+            pr = programs[0]
+            for num in ((0, 32) if w.random() < 0.6 else (0,)):
+                controls.append({"type": "c", "number": num, "value": w.choice((0, 1, 3, 120, 121)), "time": pr["time"], "track": pr["track"], "channel": pr["channel"]})
         ts = [{"time": 0.0, "beats": w.choice((3, 4, 6)), "beat_type": w.choice((4, 8)), "track": tracks[0]}] if w.random() < 0.4 else []
         ks = [{"time": 0.0, "fifths": w.randrange(-5, 6), "mode": w.choice(("major", "minor", "major", "minor", -1, 1, None)), "track": tracks[0]}] if w.random() < 0.4 else []
         meta = [{"type": "marker", "text": "m%d" % pi, "time": round(w.uniform(0, 3), 6), "track": tracks[0]}] if w.random() < 0.3 else []
@@ -395,6 +401,20 @@ def check_file(res, data, pps, perf, kn):
         if g[:3] != wn[:3] or not ticks_ok(wn[3], g[3], ppq, mpq) or not ticks_ok(wn[4], g[4], ppq, mpq):
             res.violation("P1-file", "save", "note in file (pitch, vel, ch, on_tick, off_tick)=%s, performance has %s (ppq %d mpq %d)" % (g, wn, ppq, mpq), site="ticks")
             return
+
+
+    # a bank select that comes with a program change (same tick, same channel) is in front of it: a device applies the
+    # bank to the next program change it receives
+    for ti, tr in enumerate(smf["tracks"]):
+        for i, ev in enumerate(tr):
+            if ev["type"] == "program_change":
+                late = [e2 for e2 in tr[i + 1 :] if e2["tick"] == ev["tick"] and e2["type"] == "control_change" and e2["channel"] == ev["channel"] and e2["control"] in (0, 32)]
+                if late:
+                    res.probe("bank_select_with_program")
+                    res.violation("P1-file", "save", "track %d tick %d channel %d: program change %d is written before the bank select (controller %d) of the same moment" % (ti, ev["tick"], ev["channel"], ev["program"], late[0]["control"]), site="bank-select-order")
+                    return
+                if any(e2["tick"] == ev["tick"] and e2["type"] == "control_change" and e2["channel"] == ev["channel"] and e2["control"] in (0, 32) for e2 in tr[:i]):
+                    res.probe("bank_select_with_program")
 
 
 def check_loaded(res, loaded, pps, perf, kn, merged_load):
